@@ -178,7 +178,8 @@ def check_command(t: E.Tally, cmd, active: str | None, label: str) -> None:
     src, dst = (f[-6], f[-5]) if f[-5] != "--:------" else (f[-6], f[-4])
     pl = f[-1]
     t.n += 1
-    wire = frame.replace("18:000730", REAL_GWY)  # what the gateway actually puts on the air
+    # what the gateway actually puts on the air: an evofw3 writes its real id into the FIRST address field only
+    wire = frame.replace("18:000730", REAL_GWY) if not label.startswith("to-gateway") else (frame[:7] + frame[7:].replace("18:000730", REAL_GWY, 1) if frame[7:16] == "18:000730" else frame)
     fsm = Fsm(active)
     try:
         fsm.send(cmd)
@@ -215,6 +216,10 @@ def check_command(t: E.Tally, cmd, active: str | None, label: str) -> None:
         if fsm.inject(wire) is None:
             return
         has_reply = cmd.rx_header is not None
+        if label.startswith("to-gateway"):  # (only the echo is judged: who would answer is the gateway itself)
+            if fsm.state() == "WantEcho" and not fsm.res:
+                t.bad(f"C06:echo-not-recognised:{label}", f"command {frame!r}, active gateway {active}: echo {wire!r} left the FSM in {fsm.state()}", rep)
+            return
         if has_reply:
             if fsm.state() != "WantRply":
                 t.bad(f"C06:echo-not-recognised:{label}", f"command {frame!r}, active gateway {active}: echo {wire!r} left the FSM in {fsm.state()} ({fsm.res})", rep)
@@ -352,6 +357,18 @@ def commands(quick: bool):
             yield f"sweep:to-type-{dst[:2]}", cmd
 
 
+    # requests / writes addressed to the gateway itself through the 18:000730 placeholder, from the gateway's real id or from a
+    # device it impersonates: the echo comes back verbatim (only the first address field is ever rewritten)
+    for src in (REAL_GWY, "30:111111"):
+        for verb, code, pl in (("RQ", "10E0", "00"), ("RQ", "0016", "00FF"), (" W", "2309", "0107D0"), ("RQ", "30C9", "00"), (" W", "1FC9", "0023093EF000")):
+            try:
+                cmd = Command.from_attrs(verb, "18:000730", code, pl, from_id=src)
+                _ = cmd.tx_header, cmd.rx_header
+            except Exception:  # noqa: BLE001
+                continue
+            yield f"to-gateway:from-{src[:2]}", cmd
+
+
 def shard(arg) -> E.Tally:
     i, n, quick = arg
     logcap.install()
@@ -360,6 +377,8 @@ def shard(arg) -> E.Tally:
         if j % n != i:
             continue
         for active in (REAL_GWY, None):
+            if active is None and label.startswith("to-gateway"):
+                continue  # (a gateway that does not know its own id cannot tell its real id from a foreign gateway's)
             check_command(t, cmd, active, label)
         t.by["commands"] += 1
         if j % 499 == 0:
